@@ -20,6 +20,9 @@
 //!     t K <hex> | t T <hex>    a keyword token / any other token
 //!   mode json                  like `mode raw`; the input is in (or near) KIP's JSON dialect and is compared
 //!                              with the Lean model of `parse_json` (request `j <hex>`): verdict and value
+//!   mode oneof <key>           `x <hex>` is the input, every `a <hex>` an explicit spelling of one admissible
+//!     x <hex> / a <hex>        reading; the answers of all five entry points for x (verdict kinds, tree,
+//!                              JSON value) must be those for one of the alternatives (failure key = <key>)
 //!   mode same <key>            explicit metamorphic set: every line is a whole input, all of them must
 //!     s <hex>                  parse to the same result (failure key = <key>)
 //!   mode words                 correspondence of `words(&[..])` / `trivia1`: every line is a separator;
@@ -146,6 +149,8 @@ enum Case {
     Same { key: String, inputs: Vec<String> },
     /// separators tried between the two words of `EXECUTION CONTEXT`
     Words { seps: Vec<String> },
+    /// the input must be read as one of the alternatives (all entry points at once)
+    OneOf { key: String, x: String, alts: Vec<String> },
 }
 
 fn case_to_ops(c: &Case) -> Vec<String> {
@@ -180,6 +185,12 @@ fn case_to_ops(c: &Case) -> Vec<String> {
                 }
             }
             flush(&mut buf, &mut ops);
+            ops
+        }
+        Case::OneOf { key, x, alts } => {
+            let hx = |t: &String| if t.is_empty() { "-".to_string() } else { hex(t.as_bytes()) };
+            let mut ops = vec![format!("mode oneof {key}"), format!("x {}", hx(x))];
+            ops.extend(alts.iter().map(|a| format!("a {}", hx(a))));
             ops
         }
         Case::Words { seps } => {
@@ -236,6 +247,18 @@ fn ops_to_case(ops: &[String]) -> Option<Case> {
                 }
             }
             Some(if is_json { Case::Json(s) } else { Case::Raw(s) })
+        }
+        ["mode", "oneof", key] => {
+            let (mut x, mut alts) = (None, Vec::new());
+            for l in &ops[1..] {
+                let w: Vec<&str> = l.split_whitespace().collect();
+                match w.as_slice() {
+                    ["x", h] => x = Some(child::unhex(h)?),
+                    ["a", h] => alts.push(child::unhex(h)?),
+                    _ => return None,
+                }
+            }
+            Some(Case::OneOf { key: key.to_string(), x: x?, alts })
         }
         ["mode", "words"] => {
             let mut seps = Vec::new();
@@ -314,6 +337,8 @@ struct Ev {
     tree: String,
     json_ok: bool,
     json_canon: String,
+    /// the answers of all five entry points (verdict kinds), the tree and the JSON value
+    all: String,
 }
 
 /// deepest stack of a strict matcher until it stops (independent re-statement of `strictDepth`)
@@ -395,7 +420,7 @@ impl Worker {
             o.hits.push("reflex-vs-parser:checked".into());
         }
         let kip = g("kip");
-        let ev = Ev { status: if kip == "ok" { "ok".into() } else { "err".into() }, family: g("family"), tree: g("tree"), json_ok: g("json") == "ok", json_canon: g("json_canon") };
+        let ev = Ev { status: if kip == "ok" { "ok".into() } else { "err".into() }, family: g("family"), tree: g("tree"), json_ok: g("json") == "ok", json_canon: g("json_canon"), all: format!("kip={} kql={} kml={} meta={} json={} tree={} value={}", kip, g("kql"), g("kml"), g("meta"), g("json"), g("tree"), g("json_canon")) };
         o.hits.push(format!("result:{}", if kip == "ok" { format!("ok-{}", ev.family) } else { kip.clone() }));
         if label == "base" || label == "raw" || label == "#0" {
             o.base_result = kip.clone();
@@ -479,7 +504,7 @@ impl Worker {
             o.hits.push("case:malformed-ops".into());
             return o;
         };
-        self.json_mode = matches!(case, Case::Json(_));
+        self.json_mode = matches!(case, Case::Json(_) | Case::OneOf { .. });
         match case {
             Case::Raw(s) | Case::Json(s) => {
                 if let Some(ev) = self.eval_string(&s, "raw", &mut o) {
@@ -487,6 +512,33 @@ impl Worker {
                     o.canon = format!("{}|{}|{}", ev.status, ev.tree, if self.json_mode { &ev.json_canon } else { "" });
                     if o.nontrivial {
                         o.sample = Some(json!({"input": clip(&s, 200), "family": ev.family}));
+                    }
+                }
+            }
+            Case::OneOf { key, x, alts } => {
+                self.json_mode = true;
+                if let Some(ex) = self.eval_string(&x, "raw", &mut o) {
+                    o.nontrivial = ex.status == "ok" || ex.json_ok;
+                    o.canon = format!("oneof|{}", ex.all);
+                    let mut matched = alts.is_empty();
+                    let mut seen = Vec::new();
+                    for (n, a) in alts.iter().enumerate() {
+                        let Some(ea) = self.eval_string(a, &format!("alt#{n}"), &mut o) else { continue };
+                        if ea.all == ex.all {
+                            matched = true;
+                        }
+                        seen.push(format!("{:?} -> {}", clip(a, 160), clip(&ea.all, 200)));
+                    }
+                    if !matched {
+                        o.failures.push((
+                            key.clone(),
+                            format!(
+                                "the text is read like none of its admissible explicit spellings (where a `//` comment ends decides what is comment and what is live input; the pre-scan and every parser must agree, and the result must not depend on the comment's content): {:?}",
+                                clip(&x, 300)
+                            ),
+                            seen.join(" | "),
+                            clip(&ex.all, 300),
+                        ));
                     }
                 }
             }
@@ -651,7 +703,13 @@ fn generate(seed: u64, i: u64, thorough: bool, lexical_focus: bool) -> (Case, Ve
             _ => k,
         };
     }
-    let case = if r.below(100) < if lexical_focus { 20 } else { 10 } {
+    let case = if r.below(100) < if lexical_focus { 12 } else { 6 } {
+        // where does a `//` comment end? every candidate terminator, with a payload after it on the same line
+        let (x, alts, tag) = mutate::comment_terminator_case(&mut r, thorough);
+        tags.push("gen:comment-terminator".into());
+        tags.push(tag);
+        Case::OneOf { key: "comment-end-inconsistent".into(), x, alts }
+    } else if r.below(100) < if lexical_focus { 20 } else { 10 } {
         // KIP's JSON dialect against the model of parse_json
         let mut t = mutate::json_text(&mut r);
         if r.chance(1, 4) {
